@@ -29,7 +29,9 @@ def check(ctx):
     ctx.rule("C14-D", "markers carry no width: every write of TaggedLine.len adds a display width of stored "
              "text (or resets to 0 with the contents); pushing a non-Str element does not touch len")
     ctx.rule("C14-E", "the FragStart arm of the tree walk only records the marker; its size estimate is zero")
-    for rid, fn in (("C14-A", rule_a), ("C14-B", rule_b), ("C14-C", rule_c), ("C14-D", rule_d), ("C14-E", rule_e)):
+    ctx.rule("C14-F", "the renderer's line list grows only through add_line, the one place where pending markers are attached "
+             "to the next line; every other mutable use of SubRenderer.lines only edits an existing line")
+    for rid, fn in (("C14-A", rule_a), ("C14-B", rule_b), ("C14-C", rule_c), ("C14-D", rule_d), ("C14-E", rule_e), ("C14-F", rule_f)):
         ctx.guard(rid, fn)
 
 
@@ -394,3 +396,41 @@ def rule_e(ctx):
         t = cse.term(tb[0])
         okc = t["k"] == "call" and ends(callee_def(t), "Default>::default", "Default::default")
     ctx.check(okc, "C14-E", "FragStart:zero-size-estimate", cse.term(tb[0])["span"] if tb else "", cse.id, "")
+
+
+GROW = ("push_back", "push_front", "push", "extend", "append", "insert", "extend_from_slice", "splice", "resize")
+EDIT_ONLY = ("back_mut", "front_mut", "iter_mut", "last_mut", "first_mut", "get_mut")
+
+
+def rule_f(ctx):
+    F = ctx.facts
+    al = F.one("SubRenderer::<D>::add_line")
+    n = 0
+    grow_in_add_line = 0
+    for (b, bb, where, pl, acc) in field_accesses(F, SUBR, "lines"):
+        if b.raw.get("from_expansion") and b.kind != "Closure":
+            continue
+        if acc == "write":
+            # whole-field assignment: only the constructor
+            ctx.check(ends(b.id, "SubRenderer::<D>::new"), "C14-F", "lines:assigned@%s" % fn_key(b), site(b, bb, where), b.id,
+                      "SubRenderer.lines is replaced outside the constructor")
+            continue
+        if acc != "refmut":
+            continue
+        n += 1
+        st = b.stmts(bb)[where[1]]
+        cons = consumer_of_ref(b, bb, where, st["lhs"]["l"])
+        m = callee_method(cons[1]) if cons else None
+        if b.id == al.id:
+            grow_in_add_line += 1 if m in GROW else 0
+            ctx.check(m in GROW or m in EDIT_ONLY, "C14-F", "lines:%s@add_line" % m, site(b, bb, where), b.id, "unexpected use %s" % m)
+            continue
+        ctx.check(m in EDIT_ONLY, "C14-F", "lines:%s@%s" % (m, fn_key(b)), site(b, bb, where), b.id,
+                  "SubRenderer.lines is %s outside add_line: a line added this way never receives the fragment markers "
+                  "waiting in pending_frags (and bypasses the at_block_end bookkeeping)" % ("grown with " + m if m in GROW else "used by %s" % m))
+    ctx.floor("C14-F", "mutable uses of SubRenderer.lines", n, 4)
+    ctx.check(grow_in_add_line >= 1, "C14-F", "add_line:grows-lines", al.span, al.id, "")
+    # add_line attaches the pending markers before pushing a text line
+    at = [callee_method(t) for _bb, t in al.calls()]
+    reads_pending = any(any(isinstance(e, dict) and e.get("n") == "pending_frags" for e in pl["p"]) for (_bb, _w, pl, _acc) in al.all_places())
+    ctx.check(reads_pending, "C14-F", "add_line:attaches-pending_frags", al.span, al.id, "calls: %s" % at)
